@@ -55,143 +55,6 @@ Proof.
     specialize (Hm eq_refl). destruct (fleb _ _) in Hm; discriminate.
 Qed.
 
-(** ------------------------------ EDDM: drift_thresh ------------------------------ *)
-Definition eddm_with_drift (p : @eddm_params N) (t : F N) : eddm_params :=
-  {| eddm_n_threshold := eddm_n_threshold p; eddm_warning_thresh := eddm_warning_thresh p; eddm_drift_thresh := t |}.
-
-Lemma eddm_same_state p q e n x :
-  eddm_n_threshold p = eddm_n_threshold q -> fst (eddm_step p e n x) = fst (@eddm_step N q e n x).
-Proof.
-  intros H. unfold eddm_step. destruct x; [reflexivity|]. cbv zeta. rewrite H.
-  destruct (e_n_errors e + 1 <? eddm_n_threshold q)%Z; reflexivity.
-Qed.
-
-(** stricter = smaller drift_thresh: t2 <= t1 *)
-Lemma eddm_drift_mono p t1 t2 e n x : fleb t2 t1 = true ->
-  snd (eddm_step (eddm_with_drift p t2) e n x) = Some DDrift ->
-  snd (eddm_step (eddm_with_drift p t1) e n x) = Some DDrift.
-Proof.
-  intros Ht. unfold eddm_step. destruct x; [discriminate|]. cbv zeta. simpl.
-  destruct (e_n_errors e + 1 <? eddm_n_threshold p)%Z; [discriminate|]. simpl.
-  match goal with |- context [fleb ?s t2] => set (stat := s) end.
-  destruct (fleb stat t2) eqn:E2.
-  - intros _. rewrite (fle_trans OL stat t2 t1 E2 Ht). reflexivity.
-  - destruct (fleb stat (eddm_warning_thresh p)); discriminate.
-Qed.
-
-Lemma eddm_drift_same_otherwise p t1 t2 e n x : fleb t2 t1 = true ->
-  snd (eddm_step (eddm_with_drift p t1) e n x) <> Some DDrift ->
-  snd (eddm_step (eddm_with_drift p t2) e n x) = snd (eddm_step (eddm_with_drift p t1) e n x).
-Proof.
-  intros Ht. pose proof (eddm_drift_mono p t1 t2 e n x Ht) as Hm. revert Hm.
-  unfold eddm_step. destruct x; [reflexivity|]. cbv zeta. simpl.
-  destruct (e_n_errors e + 1 <? eddm_n_threshold p)%Z; [reflexivity|]. simpl.
-  match goal with |- context [fleb ?s t2] => set (stat := s) end.
-  destruct (fleb stat t1) eqn:E1; [congruence|].
-  destruct (fleb stat t2) eqn:E2; [|reflexivity].
-  intros Hm _. specialize (Hm eq_refl). destruct (fleb stat (eddm_warning_thresh p)); discriminate.
-Qed.
-
-(** ------------------------------ STEPD: alpha_drift ------------------------------ *)
-Definition stepd_with_drift (p : @stepd_params N) (a : F N) : stepd_params :=
-  {| stepd_window := stepd_window p; stepd_alpha_warning := stepd_alpha_warning p; stepd_alpha_drift := a |}.
-
-Lemma stepd_same_state p q e n x :
-  stepd_window p = stepd_window q -> fst (stepd_step p e n x) = fst (@stepd_step N q e n x).
-Proof.
-  intros H. unfold stepd_step. cbv zeta. rewrite H.
-  destruct (stepd_window q <? _)%Z; destruct (2 * stepd_window q <=? n)%Z; reflexivity.
-Qed.
-
-(** stricter = smaller alpha_drift: a2 <= a1 *)
-Lemma stepd_drift_mono p a1 a2 e n x : fleb a2 a1 = true ->
-  snd (stepd_step (stepd_with_drift p a2) e n x) = Some DDrift ->
-  snd (stepd_step (stepd_with_drift p a1) e n x) = Some DDrift.
-Proof.
-  intros Ha H. pose proof (stepd_warmup _ e n x _ H) as Hw. simpl in Hw.
-  destruct (stepd_decision (stepd_with_drift p a2) e n x Hw) as [D2 _].
-  destruct (stepd_decision (stepd_with_drift p a1) e n x Hw) as [D1 _].
-  cbv zeta in D1, D2. simpl in D1, D2. rewrite D1. rewrite D2 in H.
-  rewrite (stepd_same_state (stepd_with_drift p a1) (stepd_with_drift p a2)) by reflexivity.
-  destruct (fltb (stepd_recent _) (stepd_past _ n)); simpl in *.
-  - destruct (fltb (snd x) a2) eqn:E2.
-    + rewrite (flt_le_trans OL _ _ _ E2 Ha). reflexivity.
-    + destruct (fltb (snd x) (stepd_alpha_warning p)); discriminate.
-  - discriminate.
-Qed.
-
-Lemma stepd_drift_same_otherwise p a1 a2 e n x : fleb a2 a1 = true ->
-  snd (stepd_step (stepd_with_drift p a1) e n x) <> Some DDrift ->
-  snd (stepd_step (stepd_with_drift p a2) e n x) = snd (stepd_step (stepd_with_drift p a1) e n x).
-Proof.
-  intros Ha Hnd. destruct (Z.lt_ge_cases n (2 * stepd_window p)) as [Hn|Hn].
-  - assert (H1 : forall a, snd (stepd_step (stepd_with_drift p a) e n x) = None).
-    { intros a. apply stepd_gate_iff. unfold stepd_gate. simpl. apply Z.leb_gt. exact Hn. }
-    rewrite !H1. reflexivity.
-  - pose proof (stepd_drift_mono p a1 a2 e n x Ha) as Hm.
-    assert (Hw : (2 * stepd_window (stepd_with_drift p a1) <= n)%Z) by exact Hn.
-    destruct (stepd_decision (stepd_with_drift p a2) e n x Hw) as [D2 _].
-    destruct (stepd_decision (stepd_with_drift p a1) e n x Hw) as [D1 _].
-    cbv zeta in D1, D2. simpl in D1, D2. rewrite D1 in *. rewrite D2 in *.
-    rewrite (stepd_same_state (stepd_with_drift p a1) (stepd_with_drift p a2)) in * by reflexivity.
-    destruct (fltb (stepd_recent _) (stepd_past _ n)); simpl in *; [|reflexivity].
-    destruct (fltb (snd x) a1) eqn:E1; [congruence|].
-    destruct (fltb (snd x) a2) eqn:E2; [|reflexivity].
-    specialize (Hm eq_refl). destruct (fltb (snd x) (stepd_alpha_warning p)); discriminate.
-Qed.
-
-(** ------------------------------ CUSUM: threshold ------------------------------ *)
-Definition cusum_with_thr (p : @cusum_params N) (t : F N) : cusum_params :=
-  {| c_burn_in := c_burn_in p; c_delta := c_delta p; c_threshold := t; c_dir := c_dir p |}.
-
-Lemma cusum_same_state p t1 t2 e n x :
-  fst (cusum_step (cusum_with_thr p t1) e n x) = fst (@cusum_step N (cusum_with_thr p t2) e n x).
-Proof. unfold cusum_step. cbv zeta. simpl.
-  destruct (c_target e); [|destruct (n =? c_burn_in p)%Z];
-  repeat match goal with |- context [match ?o with Some _ => _ | None => _ end] => destruct o end; reflexivity.
-Qed.
-
-Lemma cusum_alarm_antitone p t1 t2 up lo : fleb t1 t2 = true ->
-  cusum_alarm (cusum_with_thr p t2) up lo = true -> cusum_alarm (cusum_with_thr p t1) up lo = true.
-Proof.
-  intros Ht. unfold cusum_alarm. simpl.
-  assert (A : forall v, fltb t2 v = true -> fltb t1 v = true) by (intros v Hv; exact (fle_lt_trans OL _ _ _ Ht Hv)).
-  destruct (c_dir p); try apply A.
-  intros H. apply orb_true_iff in H. apply orb_true_iff. destruct H as [H|H]; [left | right]; apply A; exact H.
-Qed.
-
-(** the decision as a function of the threshold, for any state *)
-Lemma cusum_decision_form p e n x : exists up lo,
-  forall t', snd (cusum_step (cusum_with_thr p t') e n x) =
-     if (c_burn_in p <? n)%Z && cusum_alarm (cusum_with_thr p t') up lo then Some DDrift else None.
-Proof.
-  unfold cusum_step. cbv zeta. simpl.
-  destruct (c_target e) as [tg|]; [|destruct (n =? c_burn_in p)%Z];
-  repeat match goal with |- context [match ?o with Some _ => _ | None => _ end] => destruct o end;
-  eexists; eexists; intros t'; unfold cusum_alarm; simpl; reflexivity.
-Qed.
-
-Lemma cusum_drift_mono p t1 t2 e n x : fleb t1 t2 = true ->
-  snd (cusum_step (cusum_with_thr p t2) e n x) = Some DDrift ->
-  snd (cusum_step (cusum_with_thr p t1) e n x) = Some DDrift.
-Proof.
-  intros Ht. destruct (cusum_decision_form p e n x) as (up & lo & Hf). rewrite !Hf.
-  destruct (c_burn_in p <? n)%Z; simpl; [|discriminate].
-  destruct (cusum_alarm (cusum_with_thr p t2) up lo) eqn:E2; [|discriminate].
-  intros _. rewrite (cusum_alarm_antitone p t1 t2 up lo Ht E2). reflexivity.
-Qed.
-
-Lemma cusum_drift_same_otherwise p t1 t2 e n x : fleb t1 t2 = true ->
-  snd (cusum_step (cusum_with_thr p t1) e n x) <> Some DDrift ->
-  snd (cusum_step (cusum_with_thr p t2) e n x) = snd (cusum_step (cusum_with_thr p t1) e n x).
-Proof.
-  intros Ht. destruct (cusum_decision_form p e n x) as (up & lo & Hf). rewrite !Hf.
-  destruct (c_burn_in p <? n)%Z; simpl; [|reflexivity].
-  destruct (cusum_alarm (cusum_with_thr p t1) up lo) eqn:E1; [congruence|].
-  destruct (cusum_alarm (cusum_with_thr p t2) up lo) eqn:E2; [|reflexivity].
-  rewrite (cusum_alarm_antitone p t1 t2 up lo Ht E2) in E1. discriminate.
-Qed.
-
 (** ------------------------------ Page-Hinkley: threshold (positive thresholds) ------------------------------ *)
 Definition ph_with_thr (p : @ph_params N) (t : F N) : ph_params :=
   {| ph_delta := ph_delta p; ph_threshold := t; ph_burn_in := ph_burn_in p; ph_dir := ph_dir p |}.
@@ -278,6 +141,153 @@ Proof.
       * destruct (fleb (ddm_rmin' e n x + k1 * ddm_sd' e n x) _); repeat split; intros; congruence.
 Qed.
 
+End Mono.
+
+(** ===== detectors whose threshold test needs nothing but transitivity of the comparisons =====
+    (EDDM, STEPD, CUSUM).  [TransLaws] hold for the reals AND for all IEEE doubles (FloatLaws.v),
+    so these results are unconditional for the bit-exact float model. *)
+Section MonoTrans.
+Context {N : Num}.
+Variable TL : TransLaws N.
+Local Open Scope num_scope.
+
+(** ------------------------------ EDDM: drift_thresh ------------------------------ *)
+Definition eddm_with_drift (p : @eddm_params N) (t : F N) : eddm_params :=
+  {| eddm_n_threshold := eddm_n_threshold p; eddm_warning_thresh := eddm_warning_thresh p; eddm_drift_thresh := t |}.
+
+Lemma eddm_same_state p q e n x :
+  eddm_n_threshold p = eddm_n_threshold q -> fst (eddm_step p e n x) = fst (@eddm_step N q e n x).
+Proof.
+  intros H. unfold eddm_step. destruct x; [reflexivity|]. cbv zeta. rewrite H.
+  destruct (e_n_errors e + 1 <? eddm_n_threshold q)%Z; reflexivity.
+Qed.
+
+(** stricter = smaller drift_thresh: t2 <= t1 *)
+Lemma eddm_drift_mono p t1 t2 e n x : fleb t2 t1 = true ->
+  snd (eddm_step (eddm_with_drift p t2) e n x) = Some DDrift ->
+  snd (eddm_step (eddm_with_drift p t1) e n x) = Some DDrift.
+Proof.
+  intros Ht. unfold eddm_step. destruct x; [discriminate|]. cbv zeta. simpl.
+  destruct (e_n_errors e + 1 <? eddm_n_threshold p)%Z; [discriminate|]. simpl.
+  match goal with |- context [fleb ?s t2] => set (stat := s) end.
+  destruct (fleb stat t2) eqn:E2.
+  - intros _. rewrite (tl_le_trans N TL stat t2 t1 E2 Ht). reflexivity.
+  - destruct (fleb stat (eddm_warning_thresh p)); discriminate.
+Qed.
+
+Lemma eddm_drift_same_otherwise p t1 t2 e n x : fleb t2 t1 = true ->
+  snd (eddm_step (eddm_with_drift p t1) e n x) <> Some DDrift ->
+  snd (eddm_step (eddm_with_drift p t2) e n x) = snd (eddm_step (eddm_with_drift p t1) e n x).
+Proof.
+  intros Ht. pose proof (eddm_drift_mono p t1 t2 e n x Ht) as Hm. revert Hm.
+  unfold eddm_step. destruct x; [reflexivity|]. cbv zeta. simpl.
+  destruct (e_n_errors e + 1 <? eddm_n_threshold p)%Z; [reflexivity|]. simpl.
+  match goal with |- context [fleb ?s t2] => set (stat := s) end.
+  destruct (fleb stat t1) eqn:E1; [congruence|].
+  destruct (fleb stat t2) eqn:E2; [|reflexivity].
+  intros Hm _. specialize (Hm eq_refl). destruct (fleb stat (eddm_warning_thresh p)); discriminate.
+Qed.
+
+(** ------------------------------ STEPD: alpha_drift ------------------------------ *)
+Definition stepd_with_drift (p : @stepd_params N) (a : F N) : stepd_params :=
+  {| stepd_window := stepd_window p; stepd_alpha_warning := stepd_alpha_warning p; stepd_alpha_drift := a |}.
+
+Lemma stepd_same_state p q e n x :
+  stepd_window p = stepd_window q -> fst (stepd_step p e n x) = fst (@stepd_step N q e n x).
+Proof.
+  intros H. unfold stepd_step. cbv zeta. rewrite H.
+  destruct (stepd_window q <? _)%Z; destruct (2 * stepd_window q <=? n)%Z; reflexivity.
+Qed.
+
+(** stricter = smaller alpha_drift: a2 <= a1 *)
+Lemma stepd_drift_mono p a1 a2 e n x : fleb a2 a1 = true ->
+  snd (stepd_step (stepd_with_drift p a2) e n x) = Some DDrift ->
+  snd (stepd_step (stepd_with_drift p a1) e n x) = Some DDrift.
+Proof.
+  intros Ha H. pose proof (stepd_warmup _ e n x _ H) as Hw. simpl in Hw.
+  destruct (stepd_decision (stepd_with_drift p a2) e n x Hw) as [D2 _].
+  destruct (stepd_decision (stepd_with_drift p a1) e n x Hw) as [D1 _].
+  cbv zeta in D1, D2. simpl in D1, D2. rewrite D1. rewrite D2 in H.
+  rewrite (stepd_same_state (stepd_with_drift p a1) (stepd_with_drift p a2)) by reflexivity.
+  destruct (fltb (stepd_recent _) (stepd_past _ n)); simpl in *.
+  - destruct (fltb (snd x) a2) eqn:E2.
+    + rewrite (tl_lt_le_trans N TL _ _ _ E2 Ha). reflexivity.
+    + destruct (fltb (snd x) (stepd_alpha_warning p)); discriminate.
+  - discriminate.
+Qed.
+
+Lemma stepd_drift_same_otherwise p a1 a2 e n x : fleb a2 a1 = true ->
+  snd (stepd_step (stepd_with_drift p a1) e n x) <> Some DDrift ->
+  snd (stepd_step (stepd_with_drift p a2) e n x) = snd (stepd_step (stepd_with_drift p a1) e n x).
+Proof.
+  intros Ha Hnd. destruct (Z.lt_ge_cases n (2 * stepd_window p)) as [Hn|Hn].
+  - assert (H1 : forall a, snd (stepd_step (stepd_with_drift p a) e n x) = None).
+    { intros a. apply stepd_gate_iff. unfold stepd_gate. simpl. apply Z.leb_gt. exact Hn. }
+    rewrite !H1. reflexivity.
+  - pose proof (stepd_drift_mono p a1 a2 e n x Ha) as Hm.
+    assert (Hw : (2 * stepd_window (stepd_with_drift p a1) <= n)%Z) by exact Hn.
+    destruct (stepd_decision (stepd_with_drift p a2) e n x Hw) as [D2 _].
+    destruct (stepd_decision (stepd_with_drift p a1) e n x Hw) as [D1 _].
+    cbv zeta in D1, D2. simpl in D1, D2. rewrite D1 in *. rewrite D2 in *.
+    rewrite (stepd_same_state (stepd_with_drift p a1) (stepd_with_drift p a2)) in * by reflexivity.
+    destruct (fltb (stepd_recent _) (stepd_past _ n)); simpl in *; [|reflexivity].
+    destruct (fltb (snd x) a1) eqn:E1; [congruence|].
+    destruct (fltb (snd x) a2) eqn:E2; [|reflexivity].
+    specialize (Hm eq_refl). destruct (fltb (snd x) (stepd_alpha_warning p)); discriminate.
+Qed.
+
+(** ------------------------------ CUSUM: threshold ------------------------------ *)
+Definition cusum_with_thr (p : @cusum_params N) (t : F N) : cusum_params :=
+  {| c_burn_in := c_burn_in p; c_delta := c_delta p; c_threshold := t; c_dir := c_dir p |}.
+
+Lemma cusum_same_state p t1 t2 e n x :
+  fst (cusum_step (cusum_with_thr p t1) e n x) = fst (@cusum_step N (cusum_with_thr p t2) e n x).
+Proof. unfold cusum_step. cbv zeta. simpl.
+  destruct (c_target e); [|destruct (n =? c_burn_in p)%Z];
+  repeat match goal with |- context [match ?o with Some _ => _ | None => _ end] => destruct o end; reflexivity.
+Qed.
+
+Lemma cusum_alarm_antitone p t1 t2 up lo : fleb t1 t2 = true ->
+  cusum_alarm (cusum_with_thr p t2) up lo = true -> cusum_alarm (cusum_with_thr p t1) up lo = true.
+Proof.
+  intros Ht. unfold cusum_alarm. simpl.
+  assert (A : forall v, fltb t2 v = true -> fltb t1 v = true) by (intros v Hv; exact (tl_le_lt_trans N TL _ _ _ Ht Hv)).
+  destruct (c_dir p); try apply A.
+  intros H. apply orb_true_iff in H. apply orb_true_iff. destruct H as [H|H]; [left | right]; apply A; exact H.
+Qed.
+
+(** the decision as a function of the threshold, for any state *)
+Lemma cusum_decision_form p e n x : exists up lo,
+  forall t', snd (cusum_step (cusum_with_thr p t') e n x) =
+     if (c_burn_in p <? n)%Z && cusum_alarm (cusum_with_thr p t') up lo then Some DDrift else None.
+Proof.
+  unfold cusum_step. cbv zeta. simpl.
+  destruct (c_target e) as [tg|]; [|destruct (n =? c_burn_in p)%Z];
+  repeat match goal with |- context [match ?o with Some _ => _ | None => _ end] => destruct o end;
+  eexists; eexists; intros t'; unfold cusum_alarm; simpl; reflexivity.
+Qed.
+
+Lemma cusum_drift_mono p t1 t2 e n x : fleb t1 t2 = true ->
+  snd (cusum_step (cusum_with_thr p t2) e n x) = Some DDrift ->
+  snd (cusum_step (cusum_with_thr p t1) e n x) = Some DDrift.
+Proof.
+  intros Ht. destruct (cusum_decision_form p e n x) as (up & lo & Hf). rewrite !Hf.
+  destruct (c_burn_in p <? n)%Z; simpl; [|discriminate].
+  destruct (cusum_alarm (cusum_with_thr p t2) up lo) eqn:E2; [|discriminate].
+  intros _. rewrite (cusum_alarm_antitone p t1 t2 up lo Ht E2). reflexivity.
+Qed.
+
+Lemma cusum_drift_same_otherwise p t1 t2 e n x : fleb t1 t2 = true ->
+  snd (cusum_step (cusum_with_thr p t1) e n x) <> Some DDrift ->
+  snd (cusum_step (cusum_with_thr p t2) e n x) = snd (cusum_step (cusum_with_thr p t1) e n x).
+Proof.
+  intros Ht. destruct (cusum_decision_form p e n x) as (up & lo & Hf). rewrite !Hf.
+  destruct (c_burn_in p <? n)%Z; simpl; [|reflexivity].
+  destruct (cusum_alarm (cusum_with_thr p t1) up lo) eqn:E1; [congruence|].
+  destruct (cusum_alarm (cusum_with_thr p t2) up lo) eqn:E2; [|reflexivity].
+  rewrite (cusum_alarm_antitone p t1 t2 up lo Ht E2) in E1. discriminate.
+Qed.
+
 Definition eddm_with_warn (p : @eddm_params N) (t : F N) : eddm_params :=
   {| eddm_n_threshold := eddm_n_threshold p; eddm_warning_thresh := t; eddm_drift_thresh := eddm_drift_thresh p |}.
 
@@ -292,7 +302,7 @@ Proof.
   match goal with |- context [fleb ?s (eddm_drift_thresh p)] => set (stat := s) end.
   destruct (fleb stat (eddm_drift_thresh p)); [repeat split; intros; congruence|].
   destruct (fleb stat w2) eqn:E2.
-  - rewrite (fle_trans OL stat w2 w1 E2 Hw). repeat split; intros; congruence.
+  - rewrite (tl_le_trans N TL stat w2 w1 E2 Hw). repeat split; intros; congruence.
   - destruct (fleb stat w1); repeat split; intros; congruence.
 Qed.
 
@@ -317,8 +327,8 @@ Proof.
     destruct (fltb (stepd_recent _) (stepd_past _ n)); simpl; [|repeat split; intros; congruence].
     destruct (fltb (snd x) (stepd_alpha_drift p)); [repeat split; intros; congruence|].
     destruct (fltb (snd x) a2) eqn:E2.
-    + rewrite (flt_le_trans OL _ _ _ E2 Ha). repeat split; intros; congruence.
+    + rewrite (tl_lt_le_trans N TL _ _ _ E2 Ha). repeat split; intros; congruence.
     + destruct (fltb (snd x) a1); repeat split; intros; congruence.
 Qed.
 
-End Mono.
+End MonoTrans.
